@@ -407,6 +407,18 @@ Definition logged_eqb (act : update -> bool) (a b : event) : bool :=
   && (length (e_updates a) =? length (e_updates b))%nat
   && forallb (fun u => existsb (update_logged_eqb act u) (e_updates b)) (e_updates a).
 
+(* what the builder was given and the logged row must carry, whatever else the row holds: the rows
+   of the event, for every update the assigned activity (assigned with that value, or not assigned),
+   the named fields with their values and the emptied fields *)
+Definition update_built_eqb (a b : update) : bool :=
+  (u_id a =? u_id b) && option_eqb Bool.eqb (u_assign a) (u_assign b)
+  && list_eqb fchange_eqb (u_changes a) (u_changes b).
+
+Definition built_eqb (a b : event) : bool :=
+  (e_ws a =? e_ws b) && list_eqb create_eqb (e_creates a) (e_creates b)
+  && (length (e_updates a) =? length (e_updates b))%nat
+  && forallb (fun u => existsb (update_built_eqb u) (e_updates b)) (e_updates a).
+
 (* the value logged for an update: assigned, else the activity of the object handed to Update
    (F-C03-2) or - once validEvent refreshes it - of the stored record, which an unassigned update
    leaves as it is (st: the store after the event) *)
@@ -459,7 +471,9 @@ Definition in_domain (hr : list event) (e : event) : bool :=
 
 (* satisfies: every observed record equals the per-field fold of the LOGGED events: an applied
    event enters the history as generated and is replaced by its decoded stored form as soon as
-   that is observed (SLogged); re-applies add nothing; a record object never changes after it was
+   that is observed (SLogged) - which must carry what the builder was given (rows, assigned
+   activity, named and emptied fields: the log is not taken on trust for what the event was built
+   to do); re-applies add nothing; a record object never changes after it was
    returned; the implementation model is not consulted *)
 Fixpoint satisfies_from (hr : list event) (t : trace) : bool :=
   match t with
@@ -469,7 +483,11 @@ Fixpoint satisfies_from (hr : list event) (t : trace) : bool :=
       else satisfies_from hr rest
   | SReapply _ _ :: rest => satisfies_from hr rest
   | SObs _ ws id o :: rest => option_eqb rec_eqb o (spec_rec (touches hr ws id) id) && satisfies_from hr rest
-  | SLogged e' :: rest => satisfies_from (e' :: tl hr) rest
+  | SLogged e' :: rest =>
+      match hr with
+      | e :: older => built_eqb e e' && satisfies_from (e' :: older) rest
+      | [] => false
+      end
   | SHeld a b :: rest => option_eqb rec_eqb a b && satisfies_from hr rest
   end.
 
